@@ -590,3 +590,41 @@ func init() {
 		Technique: "inductive step by bounded symbolic execution of the real DHCP handler: reply contract (subnet segregation by capture state, mask before router, server id, lease time, xid/chaddr echo, ACK only for the transaction's offer or the current lease, NAK carries no address) asserted by SMT on every emitted reply",
 		Outside:   []string{"the complete NAK-vs-silence table (only 'never ACK' conditions are asserted)", "other home / netfilter prefix configurations"}})
 }
+
+func icmp6Jobs(tier string) []Job {
+	c := Config{MaxLoop: 200, MaxWall: 900, Stubs: map[string]bool{"uf-checksum": true}}
+	r := []string{"processed"}
+	jobs := []Job{{Pkg: "handlers/icmp_spoofer", Func: "VerifC14HuntOps", Cfg: c, Reach: r}}
+	for _, m := range []int64{0, 1} {
+		for _, a := range []int64{0, 1, 2} {
+			for _, nr := range []int64{0, 1, 2} {
+				jobs = append(jobs, Job{Pkg: "handlers/icmp_spoofer", Func: "VerifC14Loop", Args: []int64{m, a, nr}, Cfg: c, Reach: r})
+			}
+		}
+	}
+	for sel := int64(0); sel < 32; sel++ {
+		jobs = append(jobs, Job{Pkg: "handlers/icmp_spoofer", Func: "VerifC14RA", Args: []int64{sel}, Cfg: c, Reach: r})
+	}
+	return jobs
+}
+
+func init() {
+	register(&Prop{
+		ID:        "C14",
+		Technique: "bounded symbolic execution of the real ICMPv6 handler on a real Session: hunt-list set semantics, the NA spoof loop with StopHunt / Close delivered between iterations, and differential router learning (real Parse + ProcessPacket vs an independent RA decoder)",
+		Jobs:      icmp6Jobs,
+		Filter:    prefixFilter("C14:", true),
+		Bounds: func(tier string) map[string]string {
+			return map[string]string{
+				"hunt ops":        "hunt lists of 0..3 arbitrary (MAC, link-local) entries; StartHunt with IPv4, arbitrary non-link-local IPv6, link-local and address-less targets for an arbitrary (possibly already hunted) MAC; StopHunt of any MAC incl. the middle element",
+				"spoof loop":      "one hunted host (+ 0..1 others), 0..2 learned routers with arbitrary link-local addresses; StopHunt or Close after 0, 1 or 2 iterations (delivered between iterations); every frame is checked (NA, override, target = learned router, target LLA = our MAC, hop limit 255, destination = the hunted MAC)",
+				"router learning": "router advertisements through the real Parse with every header field symbolic and every subset of {prefix information, MTU, RDNSS with one server, source LLA, DNS search list with one single-label name of 1..7 letters (all padding lengths)} with all other option values symbolic: flags, preference, hop limit, lifetimes, timers, prefix, MTU, RDNSS and source LLA in the router table equal an independent decoder's reading",
+			}
+		},
+		Assumptions: []string{
+			"the handler processes one RA in four (package-level counter): the claim is about the RAs it processes (counter reset before each frame)",
+			"sequential semantics of the loop (time abstracted to 'next iteration'); ICMPv6 checksum handled as in C07",
+		},
+		Outside: []string{"multi-label / multi-name DNSSL options and route-information option contents in the router table", "the 2-2.8 s period", "RADVS (router advertisement server) goroutines"},
+	})
+}
